@@ -280,11 +280,11 @@ def run(ctx):
         ps = [a.arg for a in inner.args.args]
         ph_p, lo_p, hi_p = ps[1], ps[2], ps[3]
         ifs = [n for n in walk_no_nested(inner) if isinstance(n, ast.If)
-               and 'charge' in norm(n.test) and '>' in norm(n.test)]
+               and 'charge' in norm(n.test) and '<' in norm(n.test)]
         dir_ok = False
         if len(ifs) == 1:
             t = ifs[0]
-            pos = norm(t.test).replace(' ', '') in ('charge>0.0', 'charge>0')
+            pos = norm(t.test).replace(' ', '') in ('0.0<charge', '0<charge')
             b_t = [norm(s) for s in effective(t.body)]
             b_f = [norm(s) for s in effective(t.orelse)]
             dir_ok = pos and b_t == ['%s = %s' % (lo_p, ph_p)] and b_f == ['%s = %s' % (hi_p, ph_p)]
@@ -300,7 +300,7 @@ def run(ctx):
         stops = [n for n in walk_no_nested(inner) if isinstance(n, ast.If)
                  and 'precision' in norm(n.test)]
         stop_ok = len(stops) == 1 and norm(stops[0].test).replace(' ', '') == \
-            '%s-%s>precision' % (hi_p, lo_p)
+            'precision<%s-%s' % (hi_p, lo_p)
         ctx.ob('C09.R4', 'bisection:stop-on-precision', stop_ok,
                'the search continues while the bracket is wider than the precision', mc,
                stops[0] if stops else inner)
